@@ -719,6 +719,9 @@ qtreetbl_obj_t qtreetbl_find_nearest(qtreetbl_t *tbl, const void *name,
     }
 
     qtreetbl_lock(tbl);
+    if (tbl->root != NULL) {
+        tbl->root->next = NULL;  // root has no parent; drop any stale link
+    }
     qtreetbl_obj_t *obj, *lastobj;
     for (obj = lastobj = tbl->root; obj != NULL;) {
         int cmp = tbl->compare(name, namesize, obj->name, obj->namesize);
